@@ -392,6 +392,7 @@ pub fn worker(w: &WorkerArgs) -> i32 {
     l.labels = rep.labels.lock().unwrap().clone();
     l.nontrivial = rep.nontrivial.lock().unwrap().clone();
     l.samples = rep.samples.lock().unwrap().iter().take(2).cloned().collect();
+    l.discarded = rep.discarded.load(std::sync::atomic::Ordering::Relaxed);
     l.excluded_known = rep.excluded_known.load(std::sync::atomic::Ordering::Relaxed);
     let fails: Vec<Fail> = rep.violations.lock().unwrap().clone();
     if !rep.inconclusive.lock().unwrap().is_empty() {
